@@ -76,8 +76,6 @@ class Explorer:
         self.vars[name] = float(nominal)
         if self.alive is not None:
             self.pool[name] = self._sample(float(nominal), self.npts)
-            for j, env in enumerate(self.extra_envs()):
-                pass
 
     def _sample(self, nominal, n):
         r = self.rng
@@ -179,9 +177,6 @@ class Explorer:
         return out
 
     def _simp(self, e):
-        k0 = e.get_id()
-        for (i, orig, s) in self._keep[-1:0:-1] if False else ():
-            pass
         s = z3.simplify(e, som=True)
         self._keep.append(e)
         self._keep.append(s)
@@ -267,12 +262,6 @@ class Explorer:
         except (ZeroDivisionError, NotImplementedError):
             return False
 
-    def _witness(self, mask):
-        conds = None
-        for idx in np.nonzero(mask)[0][:5]:
-            return int(idx)
-        return None
-
     # ------------------------------------------------------------------ the decision procedure
     def decide(self, e):
         k = e.get_id()
@@ -329,6 +318,8 @@ class Explorer:
         self.trace.append(c)
         self.pc.append(e if c else z3.Not(e))
         self.cache[k] = c
+        if t.shape[0] != self.npts:
+            t, robust = self._truth(e)
         self.alive &= robust & (t if c else ~t)
         return c
 
